@@ -302,6 +302,8 @@ func newSdRig(pool bool, reqs []sdReq) *sdRig {
 		r.srv = server.NewServer()
 	}
 	r.srv.Plugins.Add(&sdPlugin{rig: r})
+	// a registry plugin whose Unregister fails (the registry is unreachable at shutdown): draining goes on all the same
+	r.srv.Plugins.Add(sdRegistryDown{})
 	r.srv.AuthFunc = func(ctx context.Context, req *protocol.Message, token string) error {
 		r.mu.Lock()
 		q := r.reqs[int(req.Seq())]
@@ -325,6 +327,13 @@ func newSdRig(pool bool, reqs []sdReq) *sdRig {
 	case <-time.After(2 * time.Second):
 	}
 	return r
+}
+
+type sdRegistryDown struct{}
+
+func (sdRegistryDown) Register(name string, rcvr interface{}, metadata string) error { return nil }
+func (sdRegistryDown) Unregister(name string) error {
+	return errors.New("registry unreachable: cannot unregister " + name)
 }
 
 func (r *sdRig) waitPre(c int, atLeast int, d time.Duration) bool {
@@ -542,11 +551,12 @@ func sdRunCase(o *common.Out, id string, c sdCase) {
 	refused := map[int]bool{}
 	got := map[int]bool{} // responses received, by request id
 	type shut struct {
-		ret    chan error
-		cancel context.CancelFunc
-		state  string // run nil err
-		stepAt int
-		first  bool // the first Shutdown call: the one that runs the shutdown
+		ret       chan error
+		cancel    context.CancelFunc
+		state     string // run nil err
+		stepAt    int
+		deadlined bool // the harness let this Shutdown's own deadline expire
+		first     bool // the first Shutdown call: the one that runs the shutdown
 	}
 	shuts := map[int]*shut{}
 	begun, closeCalled, completed := false, false, false
@@ -897,6 +907,7 @@ func sdRunCase(o *common.Out, id string, c sdCase) {
 			begun = true
 		case "deadline":
 			if s := shuts[a.arg]; s != nil && s.state == "run" {
+				s.deadlined = true
 				s.cancel()
 				select {
 				case err := <-s.ret:
@@ -920,10 +931,11 @@ func sdRunCase(o *common.Out, id string, c sdCase) {
 			}
 		}
 		settle()
-		// property oracle (independent of the model): when a Shutdown returns nil, every request read
-		// before Shutdown was called has been answered on a connection nobody else closed
+		// property oracle (independent of the model): when a Shutdown returns - with nil, or with an error although its
+		// own deadline did not expire - every request read before Shutdown was called has been answered on a
+		// connection nobody else closed
 		for k, s := range shuts {
-			if s.state == "nil" && s.stepAt >= 0 {
+			if (s.state == "nil" || (s.state == "err" && !s.deadlined)) && s.stepAt >= 0 {
 				first := true
 				for k2, s2 := range shuts {
 					if k2 != k && s2.stepAt < s.stepAt {
@@ -934,7 +946,7 @@ func sdRunCase(o *common.Out, id string, c sdCase) {
 					drain()
 					for _, rq := range c.reqs {
 						if readBeforeShutdown[rq.id] && rq.writes() && !earlyClosed[rq.conn] && !got[rq.id] {
-							fails = append(fails, fmt.Sprintf("read-not-drained: Shutdown returned nil but request %d (kind %s), read before Shutdown was called, got no response", rq.id, rq.kind))
+							fails = append(fails, fmt.Sprintf("read-not-drained: Shutdown returned (%s, its deadline had not expired) but request %d (kind %s), read before Shutdown was called, got no response", s.state, rq.id, rq.kind))
 						}
 					}
 				}
